@@ -1316,7 +1316,13 @@ class Resolver(BaseResolver):
             while not done:
                 nameserver, tcp, backoff = resolution.next_nameserver()
                 if backoff:
-                    time.sleep(backoff)
+                    # Do not sleep past the end of the lifetime.
+                    remaining = (
+                        start
+                        - time.time()
+                        + (self.lifetime if lifetime is None else lifetime)
+                    )
+                    time.sleep(min(backoff, max(0, remaining)))
                 timeout = self._compute_timeout(start, lifetime, resolution.errors)
                 try:
                     response = nameserver.query(
